@@ -265,9 +265,11 @@ func (s *c01State) addFile() {
 	n := rapid.IntRange(1, 10).Draw(rt, "file.n")
 	archive := rapid.Bool().Draw(rt, "file.archive")
 	// GenerationalNBS.GetMany tracks what the old gen delivered by chunk.Hash(); an archive's getMany
-	// reports the content hash, so forged addresses inside an old-gen archive would be asked for again
-	// in the new gen (a harness artefact): archives of generational stores hold genuine chunks only.
-	genuineOnly := archive && s.oldGen != nil
+	// reports the content hash, so a forged address inside an old-gen archive would be asked for again
+	// in the new gen and delivered twice when both generations hold it (a harness artefact). Old-gen
+	// table files can become archives through ConjoinTableFiles, so every file handed to the old
+	// generation holds genuine chunks only.
+	genuineOnly := s.oldGen != nil
 	fresh := s.set.Grow(rt, fmt.Sprintf("file%d", s.steps), n, vc.Opts{MaxNear64k: 1, GenuineOnly: genuineOnly})
 	// optionally also include chunks the store already has (duplicates across files are legal)
 	cs := append([]vc.Chunk{}, fresh...)
